@@ -215,7 +215,7 @@ func (r *c14run) hostile(g *c14gen, run func(string) error) error {
 	prod := uint32(config.ExcessiveBlockSize)
 	main := uint32(wire.MainNet)
 	hx := hex.EncodeToString
-	rounds := c.Pick(2, 40)
+	rounds := c.Pick(2, 32)
 	hugeBudget := map[string]int{} // large-allocation cases per command (they are slow)
 	for round := 0; round < rounds; round++ {
 		var frames [][]byte // valid frames of this round, for splicing
